@@ -8,6 +8,7 @@ Tie: translator translate/gen_rules.py; correspondence streams
                   the spec function toAst vs the real parse of the printout
 Search (real code only):
   `round-trip`    from_ast(parse(pretty(g))) == g on generated grammars (quoting/escape cases included)
+  `render-import` exec(render_rules(tree)) of generated grammars (raw FF/VT/FS/GS/RS/NEL/LS/PS in terminals) is importable and returns the tree's rule set
   `fixed-points`  gram.lark parsed with the built-in rules yields those rules; gram_check's rendering of each shipped .lark equals
                   the checked-in rule module (py_rules.py exactly, gram_rules.py up to its docstring); compiled and original rules
                   accept the same sentences with the same trees
@@ -241,6 +242,8 @@ def rt_key(rules: Any) -> str:
 	terms = string_terminals(rules)
 	if any(len(s) >= 2 and any(c in s for c in '\t\n\r\f') for s in terms):
 		return 'text-rt:terminal-with-raw-control-character'
+	if any('\\\\' in s for s in terms):
+		return 'text-rt:terminal-with-backslash-run'
 	if any(s.endswith('/') or s.startswith('/') for s in terms if s not in ('/', '//')):
 		return 'text-rt:terminal-with-slash-at-its-edge'
 	if any(s.endswith('\\') for s in terms):
@@ -306,6 +309,73 @@ def search_round_trip(ctx: Ctx) -> SearchResult:
 		key = rt_key(rules)
 		hist[key] += 1
 		res.findings.append(Finding(key=key, what=f'printing and re-parsing does not give the rule set back; printout {text!r}', replay={'tree': t, 'pretty': text, 'expected': want, 'got': got}))
+	res.distinct = len(seen)
+	res.histogram = dict(hist)
+	return res
+
+
+LINE_SEPARATORS = '\x0b\x0c\x1c\x1d\x1e\x85\u2028\u2029'
+
+
+def tree_values(t: Any) -> list[str]:
+	name, body = t
+	if isinstance(body, str):
+		return [body]
+	out: list[str] = []
+	for c in body:
+		out.extend(tree_values(c))
+	return out
+
+
+def search_render_import(ctx: Ctx) -> SearchResult:
+	"""`gram_check`'s output path on generated grammars: render_rules(tree) must be an importable module whose function returns
+	the rule set the tree describes (independent walk `gramlib.tree_show`). Domain: token values without `'` and without raw
+	LF/CR (render_rules has no escaping for those — outside the shipped grammars, not part of the property)."""
+	rng = ctx.sub_rng('render-import')
+	res = SearchResult('exec(render_rules(tree)) defines a function returning the rule set of the tree (real gram_check output path, generated grammars)')
+	hist: Counter[str] = Counter()
+	extra_s = [f'"{a}{c}{b}"' for c in LINE_SEPARATORS for a, b in (('', ''), ('a', 'b'))] + ['"a\tb"', '"\x1f"', '"\x7f"', '"é"']
+	extra_r = [f'/{a}{c}{b}/' for c in LINE_SEPARATORS for a, b in (('x', ''), ('', 'y'))]
+	ok_val = lambda v: "'" not in v and '\n' not in v and '\r' not in v  # noqa: E731
+	gen = gramlib.RuleGen(rng, strings=[v for v in gramlib.STRING_TERMINALS if ok_val(v)] + extra_s, regexps=[v for v in gramlib.REGEXP_TERMINALS if ok_val(v)] + extra_r)
+	world = GramWorld()
+	seen: set[str] = set()
+	for i in range(ctx.scale(220, 2500)):
+		t = gen.grammar(rng.randint(1, 4), rng.randint(0, 2), bare_groups=rng.random() < 0.2)
+		stem = rng.choice(['gen_rules', 'x_rules', 'py_rules'])
+		variants: list[tuple[str, Any]] = [('tree', None)]
+		if i % 3 == 0:
+			variants.append(('printout', None))
+		for variant, _ in variants:
+			res.cases += 1
+			want = gramlib.tree_show(t)
+			seen.add(want)
+			text = ''
+			try:
+				if variant == 'tree':
+					ast_tree = ast_tree_of(t)
+				else:
+					k, rules = real_from_ast(t)
+					printout = rules.pretty() + '\n'
+					if not all(ok_val(v) for v in [printout.replace('\n', '')]) or any(c in s2 for s2 in string_terminals(rules) for c in '\n\r'):
+						hist['printout:outside-domain'] += 1
+						continue
+					from rogw.tranp.implements.syntax.tranp.syntax import SyntaxParser
+					ast_tree = SyntaxParser(world.rules, world.tokenizer).parse(printout, 'entry')
+				text = real_render(ast_tree, stem)
+				ns: dict[str, Any] = {}
+				exec(compile(text, f'<generated {stem}.py>', 'exec'), ns)  # noqa: S102 - the module gram_check would write
+				got = gramlib.rules_show(ns[stem]())
+			except Exception as e:  # noqa: BLE001
+				got = f'raised {type(e).__name__}: {e}'
+			if got == want:
+				hist[f'{variant}:imports-equal'] += 1
+				continue
+			vals = tree_values(t)
+			cls = 'raw-line-separator-in-terminal' if any(c in v for v in vals for c in LINE_SEPARATORS) else 'other'
+			hist[f'{variant}:{cls}'] += 1
+			res.findings.append(Finding(key=f'render-import:{cls}', what=f'the module rendered for a generated grammar is not importable or defines other rules: {got[:200]}',
+				replay={'tree': t, 'variant': variant, 'rendered': text[:3000], 'expected': want, 'got': got}))
 	res.distinct = len(seen)
 	res.histogram = dict(hist)
 	return res
@@ -503,7 +573,7 @@ def run(ctx: Ctx) -> int:
 	with ctx.timed('correspondence'):
 		streams = [guarded('stream', 'rules-ast', stream_rules_ast, ctx), guarded('stream', 'rules-text', stream_rules_text, ctx)]
 	with ctx.timed('search'):
-		searches = [guarded('search', 'round-trip', search_round_trip, ctx), guarded('search', 'fixed-points', search_fixed_points, ctx)]
+		searches = [guarded('search', 'round-trip', search_round_trip, ctx), guarded('search', 'fixed-points', search_fixed_points, ctx), guarded('search', 'render-import', search_render_import, ctx)]
 	return common.finish(ctx, proof, streams, searches, translate_ok=ok, translate_msg=msg,
 		statements=STATEMENTS,
 		partial={
